@@ -10,6 +10,9 @@ struct Ctx {
     budget_s: u64,
     tried: u64,
     fresh_seeds: u64,
+    /// run every candidate in a child process (the failure kills or deadlocks the process)
+    subprocess: bool,
+    template: ReplayFile,
 }
 
 impl Ctx {
@@ -21,6 +24,9 @@ impl Ctx {
     /// number of fresh scheduler seeds. Returns the exact trace and violation of the failing run.
     fn fails(&mut self, w: &Workload, schedule: Option<&[u8]>) -> Option<(Workload, Vec<u8>, ViolationInfo)> {
         self.tried += 1;
+        if self.subprocess {
+            return self.fails_in_child(w);
+        }
         let attempt = |opts: RunOptions, w: &Workload| -> Option<(Workload, Vec<u8>, ViolationInfo)> {
             let res = run_workload(w, &opts);
             if res.harness_error.is_some() {
@@ -65,6 +71,40 @@ impl Ctx {
     }
 }
 
+impl Ctx {
+    /// Writes the candidate as a replay file and runs `celsim replay-once` on it in a child process.
+    /// The candidate fails if the child is killed by a signal, reports a deadlock (exit 4), or
+    /// reports a violation of the same class. The schedule is the candidate's own seeded policy
+    /// (deterministic), so no explicit trace is needed.
+    fn fails_in_child(&mut self, w: &Workload) -> Option<(Workload, Vec<u8>, ViolationInfo)> {
+        use std::os::unix::process::ExitStatusExt;
+        let mut rf = self.template.clone();
+        rf.workload = w.clone();
+        rf.schedule = vec![];
+        let tmp = std::env::temp_dir().join(format!("celsim-min-{}-{}.json", std::process::id(), self.tried));
+        std::fs::write(&tmp, serde_json::to_string(&rf).ok()?).ok()?;
+        let exe = std::env::current_exe().ok()?;
+        let out = std::process::Command::new(exe).arg("replay-once").arg(&tmp).output().ok();
+        let _ = std::fs::remove_file(&tmp);
+        let out = out?;
+        let text = String::from_utf8_lossy(&out.stdout).to_string();
+        let class_line = text.lines().find_map(|l| l.strip_prefix("CLASS=").map(|s| s.to_string()));
+        let crashed = out.status.signal().is_some() || matches!(out.status.code(), Some(134) | Some(139));
+        let deadlocked = out.status.code() == Some(4);
+        let same = match (&class_line, crashed, deadlocked) {
+            (_, true, _) => self.class == "process-crash",
+            (_, _, true) => self.class == "I6-deadlock",
+            (Some(c), _, _) => out.status.code() == Some(1) && *c == self.class,
+            _ => false,
+        };
+        if same {
+            Some((w.clone(), vec![], self.template.violation.clone()))
+        } else {
+            None
+        }
+    }
+}
+
 fn remap_schedule_drop_thread(s: &[u8], t: usize) -> Vec<u8> {
     s.iter().filter(|x| **x as usize != t).map(|x| if (*x as usize) > t { *x - 1 } else { *x }).collect()
 }
@@ -85,13 +125,15 @@ fn shrink_vspec(v: &VSpec) -> Vec<VSpec> {
     }
 }
 
-pub fn minimise(mut rf: ReplayFile, budget_s: u64) -> ReplayFile {
+pub fn minimise(mut rf: ReplayFile, budget_s: u64, subprocess: bool) -> ReplayFile {
     let mut cx = Ctx {
         class: rf.violation.class(),
         t0: Instant::now(),
         budget_s,
         tried: 0,
-        fresh_seeds: 40,
+        fresh_seeds: if subprocess { 0 } else { 40 },
+        subprocess,
+        template: rf.clone(),
     };
     let mut w = rf.workload.clone();
     let mut sched: Vec<u8> = rle_decode(&rf.schedule);
@@ -299,7 +341,7 @@ pub fn minimise(mut rf: ReplayFile, budget_s: u64) -> ReplayFile {
         }
     }
     // 6. fewer pre-emptions: try to merge each schedule segment into its predecessor
-    if w.engine == Engine::B {
+    if w.engine == Engine::B && !subprocess {
         let mut seg = 1;
         while !cx.out_of_time() {
             let rle = rle_encode(&sched);
@@ -332,6 +374,9 @@ pub fn minimise(mut rf: ReplayFile, budget_s: u64) -> ReplayFile {
         cx.fresh_seeds = saved_fresh;
         match r {
             Some((_, tr, v)) => {
+                if subprocess {
+                    continue;
+                }
                 if tr != sched || v.invariant != viol.invariant || v.thread != viol.thread || v.op_index != viol.op_index {
                     stable = false;
                 }
